@@ -204,3 +204,14 @@ for p in list(NOT_APPLICABLE):
         del NOT_APPLICABLE[p]
 for e in ENGINES:
     e['serves_properties'] = sorted(CHECKS)
+
+_c('C10', 'model_checking',
+   'schedule search on a real client connected to a real server inside one virtual world (shared clock, baton threads and hand-stepped loop as actors of one scheduler)',
+   'All 2x2 implementation pairs x transports {[polling],[websocket],both} x heartbeat {(1,1),(2,1)}: one-directional bursts of 1, 2, 16, 17 and 40 sends issued back to back (text/JSON/binary), simultaneous 17+17 bursts, a 3+3 exchange under all interleavings of the two applications, an idle period of 6 heartbeat cycles with a lasso check on the state digest, and disconnect by either side right after an exchange or after idle cycles; small conversations additionally with one deviation (thorough: two, all pairs). Both message logs must equal what was sent (exactly once, in order, equal values), no disconnect while idle, exactly one disconnect on each side after either side hangs up.',
+   'The network between the two real implementations is virtual (zero-time, ordered, lossless hand-over to the WSGI/ASGI gateways); only sends that reached quiescence before the hang-up are owed.',
+   'DESIGN.md 5 C10')
+for p in list(NOT_APPLICABLE):
+    if p in CHECKS:
+        del NOT_APPLICABLE[p]
+for e in ENGINES:
+    e['serves_properties'] = sorted(CHECKS)
